@@ -230,8 +230,8 @@ static int numNibbles(int value) {
 /// the length of the encoding reduces the range that must be represented, and
 /// for negative references the encoding length adds to the range that must be
 /// represented.
-static int instrLen(int labelOffset, int byteOffset) {
-  int length = 1;
+static int instrLen(int labelOffset, int byteOffset, int minLength=1) {
+  int length = minLength;
   while (length < numNibbles(labelOffset - byteOffset - length)) {
     length++;
   }
@@ -350,17 +350,17 @@ class InstrLabel : public Directive {
   std::string label;
   int labelValue;
   bool relative;
+  size_t length; // Encoding length in bytes, only ever grows during layout.
 public:
   InstrLabel(Token token, std::string label, bool relative) :
-      Directive(token), label(label), relative(relative) {}
+      Directive(token), label(label), labelValue(0), relative(relative), length(1) {}
   InstrLabel(Location location, Token token, std::string label, bool relative) :
-      Directive(location, token), label(label), relative(relative) {}
+      Directive(location, token), label(label), labelValue(0), relative(relative), length(1) {}
   void setLabelValue(int newValue) { labelValue = newValue; }
+  void setLength(size_t newLength) { length = std::max(length, newLength); }
   bool operandIsLabel() const { return true; }
   bool isRelative() const { return relative; }
-  size_t getSize() const {
-    return (labelValue < 0 && numNibbles(labelValue) == 1) ? 2 : numNibbles(labelValue);
-  }
+  size_t getSize() const { return length; }
   int getValue() const { return labelValue; }
   std::string getLabel() const { return label; }
   std::string toString() const {
@@ -728,16 +728,19 @@ class CodeGen {
     }
   }
 
-  /// Iteratively update label values until the program size does not change.
-  /// Return the final size of the program.
+  /// Iteratively update label values and the lengths of label references
+  /// until the layout does not change.
   void resolveLabels() {
-    int lastSize = -1;
-    int byteOffset = 0;
-    //int count = 0;
-    while (lastSize != byteOffset) {
-      //std::cout << "Resolving labels iteration " << count++ << "\n";
-      lastSize = byteOffset;
-      byteOffset = 0;
+    // The first pass only places the labels (every label reference is
+    // assumed to need one byte); later passes grow the references that need
+    // more until no label moves.
+    bool firstPass = true;
+    bool changed = true;
+    Directive *unaligned = nullptr;
+    while (changed) {
+      changed = false;
+      unaligned = nullptr;
+      int byteOffset = 0;
       for (auto &directive : program) {
         if (directive->getToken() == Token::DATA) {
           // Data must be on 4-byte boundaries.
@@ -749,7 +752,7 @@ class CodeGen {
         if (directive->getToken() == Token::IDENTIFIER ||
             directive->getToken() == Token::FUNC ||
             directive->getToken() == Token::PROC) {
-          dynamic_cast<Label*>(directive.get())->setLabelValue(byteOffset);
+          changed |= dynamic_cast<Label*>(directive.get())->setLabelValue(byteOffset);
         }
         // Update the label operand value of an instruction, accounting for
         // relative and absolute references.
@@ -759,25 +762,31 @@ class CodeGen {
             throw UnknownLabelError(directive->getLocation(), instrLabel->getLabel());
           }
           int labelValue = labelMap[instrLabel->getLabel()]->getValue();
-          if (instrLabel->isRelative()) {
-            int offset = labelValue - byteOffset;
-            //std::cout << "label value " << labelValue
-            //          << " byteOffset " << byteOffset
-            //          << " offset " << offset
-            //          << " instrlen " << instrLen(labelValue, byteOffset) << "\n";
-            if (offset >= 0) {
-              instrLabel->setLabelValue(offset - instrLen(labelValue, byteOffset));
+          if (!firstPass) {
+            if (instrLabel->isRelative()) {
+              int length = instrLen(labelValue, byteOffset, instrLabel->getSize());
+              instrLabel->setLength(length);
+              instrLabel->setLabelValue(labelValue - byteOffset - length);
             } else {
-              instrLabel->setLabelValue(offset - instrLen(labelValue, byteOffset));
+              if (labelValue & 0x3) {
+                unaligned = directive.get();
+              }
+              instrLabel->setLength(numNibbles(labelValue >> 2));
+              instrLabel->setLabelValue(labelValue >> 2);
             }
-          } else {
-            assert((labelValue & 0x3) == 0 && "absolute label value is not word aligned");
-            instrLabel->setLabelValue(labelValue >> 2);
           }
         }
         directive->setByteOffset(byteOffset);
         byteOffset += directive->getSize();
       }
+      if (firstPass) {
+        firstPass = false;
+        changed = true;
+      }
+    }
+    // Absolute references address words: reject rather than truncate.
+    if (unaligned) {
+      throw Error(unaligned->getLocation(), "absolute label reference is not word aligned");
     }
   }
 
